@@ -23,10 +23,19 @@ import (
 	"sync"
 	"time"
 
+	"k8s.io/apimachinery/pkg/api/meta"
 	metav1 "k8s.io/apimachinery/pkg/apis/meta/v1"
+	"k8s.io/apimachinery/pkg/runtime/schema"
+	"k8s.io/cli-runtime/pkg/genericclioptions"
+	"k8s.io/cli-runtime/pkg/resource"
+	"k8s.io/client-go/discovery"
+	"k8s.io/client-go/rest"
+	"k8s.io/client-go/restmapper"
+	"k8s.io/client-go/tools/clientcmd"
 	cmdtesting "k8s.io/kubectl/pkg/cmd/testing"
 
 	"helm.sh/helm/v4/pkg/action"
+	chart "helm.sh/helm/v4/pkg/chart/v2"
 	chartutil "helm.sh/helm/v4/pkg/chart/v2/util"
 	"helm.sh/helm/v4/pkg/kube"
 	rspb "helm.sh/helm/v4/pkg/release/v1"
@@ -56,19 +65,21 @@ type Case struct {
 // varies them on the concurrent operations so that a change which makes the pending check,
 // the name check or the create-before-mutate order depend on one of them meets a failing input.
 type OpExt struct {
-	Force          bool   `json:"force,omitempty"`            // install / upgrade / rollback --force (resource replacement through PUT)
-	Recreate       bool   `json:"recreate,omitempty"`         // upgrade / rollback --recreate-pods
-	ViaUpgrade     bool   `json:"via_upgrade,omitempty"`      // Upgrade.Install (helm upgrade --install)
-	SkipSchema     bool   `json:"skip_schema,omitempty"`      // SkipSchemaValidation
-	SubNotes       bool   `json:"sub_notes,omitempty"`        // SubNotes
-	EnableDNS      bool   `json:"enable_dns,omitempty"`       // EnableDNS
-	NoValidate     bool   `json:"no_validate,omitempty"`      // DisableOpenAPIValidation
-	ResetValues    bool   `json:"reset_values,omitempty"`     // upgrade --reset-values
-	ReuseValues    bool   `json:"reuse_values,omitempty"`     // upgrade --reuse-values
-	ResetThenReuse bool   `json:"reset_then_reuse,omitempty"` // upgrade --reset-then-reuse-values
-	SkipCRDs       bool   `json:"skip_crds,omitempty"`        // install --skip-crds
-	Label          string `json:"label,omitempty"`            // one custom (non-system) release label
-	Description    string `json:"description,omitempty"`      // --description
+	Force           bool   `json:"force,omitempty"`            // install / upgrade / rollback --force (resource replacement through PUT)
+	Recreate        bool   `json:"recreate,omitempty"`         // upgrade / rollback --recreate-pods
+	ViaUpgrade      bool   `json:"via_upgrade,omitempty"`      // Upgrade.Install (helm upgrade --install)
+	SkipSchema      bool   `json:"skip_schema,omitempty"`      // SkipSchemaValidation
+	SubNotes        bool   `json:"sub_notes,omitempty"`        // SubNotes
+	EnableDNS       bool   `json:"enable_dns,omitempty"`       // EnableDNS
+	NoValidate      bool   `json:"no_validate,omitempty"`      // DisableOpenAPIValidation
+	ResetValues     bool   `json:"reset_values,omitempty"`     // upgrade --reset-values
+	ReuseValues     bool   `json:"reuse_values,omitempty"`     // upgrade --reuse-values
+	ResetThenReuse  bool   `json:"reset_then_reuse,omitempty"` // upgrade --reset-then-reuse-values
+	SkipCRDs        bool   `json:"skip_crds,omitempty"`        // install --skip-crds
+	CRDs            bool   `json:"crds,omitempty"`             // the chart ships a crds/ directory with one CustomResourceDefinition
+	CreateNamespace bool   `json:"create_namespace,omitempty"` // install --create-namespace
+	Label           string `json:"label,omitempty"`            // one custom (non-system) release label
+	Description     string `json:"description,omitempty"`      // --description
 }
 
 // Any: some option is set.
@@ -93,6 +104,8 @@ func (x OpExt) Tags() []string {
 	add(x.ReuseValues, "reuse-values")
 	add(x.ResetThenReuse, "reset-then-reuse")
 	add(x.SkipCRDs, "skip-crds")
+	add(x.CRDs, "crds")
+	add(x.CreateNamespace, "create-namespace")
 	add(x.Label != "", "label")
 	add(x.Description != "", "description")
 	return t
@@ -107,18 +120,23 @@ func (c Case) ExtOf(i int) OpExt {
 }
 
 type OpObs struct {
-	Outcome   string     `json:"outcome"`
-	ErrText   string     `json:"err_text,omitempty"`
-	Trace     []eng.TEv  `json:"trace"`
-	Rendered  []eng.Res  `json:"rendered,omitempty"`
-	RHooks    []eng.Hook `json:"rendered_hooks,omitempty"`
-	Gates     int        `json:"gates"`                // gates this operation passed
-	Created   []int      `json:"created"`              // revisions whose driver Create succeeded
-	Refused   []int      `json:"refused"`              // revisions whose driver Create answered "exists"
-	Muts      []sim.Mut  `json:"muts,omitempty"`       // effective cluster mutations attributed to it
-	MutCalls  int        `json:"mutating_calls"`       // mutating kube.Interface calls it issued
-	FirstLast string     `json:"first_last,omitempty"` // status of the highest revision at its FIRST history read ("none": empty history)
-	Panic     string     `json:"panic,omitempty"`
+	Outcome  string     `json:"outcome"`
+	ErrText  string     `json:"err_text,omitempty"`
+	Trace    []eng.TEv  `json:"trace"`
+	Rendered []eng.Res  `json:"rendered,omitempty"`
+	RHooks   []eng.Hook `json:"rendered_hooks,omitempty"`
+	Gates    int        `json:"gates"`          // gates this operation passed
+	Created  []int      `json:"created"`        // revisions whose driver Create succeeded
+	Refused  []int      `json:"refused"`        // revisions whose driver Create answered "exists"
+	Muts     []sim.Mut  `json:"muts,omitempty"` // effective cluster mutations attributed to it
+	MutCalls int        `json:"mutating_calls"` // mutating kube.Interface calls it issued (release resources, hooks)
+	// what an install sends BEFORE its revision record exists and outside the release: the CRDs of crds/ (installCRDs)
+	// and the release namespace (--create-namespace).  Engine/Ops.v does not have them (Engine/DryOps.v does): they are
+	// counted here for the oracle, not gated, not part of the compared trace / objects
+	PreCalls  int       `json:"pre_calls,omitempty"`
+	PreMuts   []sim.Mut `json:"pre_muts,omitempty"`
+	FirstLast string    `json:"first_last,omitempty"` // status of the highest revision at its FIRST history read ("none": empty history)
+	Panic     string    `json:"panic,omitempty"`
 }
 
 type Obs struct {
@@ -317,7 +335,32 @@ func (c *gclient) call(name string, fn func()) {
 	c.o.log(eng.TEv{Call: name, Muts: m})
 }
 
+// auxOnly: every object is a CustomResourceDefinition or a Namespace (and there is at least one)
+func auxOnly(rs kube.ResourceList) bool {
+	for _, r := range rs {
+		if r == nil || r.Mapping == nil {
+			return false
+		}
+		if k := r.Mapping.GroupVersionKind.Kind; k != "CustomResourceDefinition" && k != "Namespace" {
+			return false
+		}
+	}
+	return len(rs) > 0
+}
+
 func (c *gclient) Create(rs kube.ResourceList) (res *kube.Result, err error) {
+	if auxOnly(rs) {
+		// the CRD pre-install step / --create-namespace: not an effect of the model; counted for the oracle.
+		// Only one operation runs at a time, so the attribution of the effective mutations is exact.
+		c.o.srv.TakeMuts()
+		res, err = c.Client.Create(rs)
+		m := c.o.srv.TakeMuts()
+		c.o.mu.Lock()
+		c.o.obs.PreCalls++
+		c.o.obs.PreMuts = append(c.o.obs.PreMuts, m...)
+		c.o.mu.Unlock()
+		return
+	}
 	c.call("create", func() { res, err = c.Client.Create(rs) })
 	return
 }
@@ -351,7 +394,10 @@ func (c *gclient) GetWaiter(ws kube.WaitStrategy) (kube.Waiter, error) {
 
 type waiter struct{ o *opCtl }
 
-func (w *waiter) Wait(kube.ResourceList, time.Duration) error {
+func (w *waiter) Wait(rs kube.ResourceList, _ time.Duration) error {
+	if auxOnly(rs) { // installCRDs waits for the CRDs it created
+		return nil
+	}
 	w.o.log(eng.TEv{Call: "wait"})
 	return nil
 }
@@ -428,6 +474,9 @@ func runOp(cfg *action.Configuration, op *eng.Op, x OpExt) error {
 		labels = map[string]string{x.Label: "1"}
 	}
 	ch := eng.BuildChart(op)
+	if x.CRDs {
+		ch.Files = append(ch.Files, &chart.File{Name: "crds/widgets.yaml", Data: []byte(crdDoc)})
+	}
 	vals := map[string]interface{}{"v": op.ValsID}
 	var err error
 	switch op.Kind {
@@ -438,7 +487,7 @@ func runOp(cfg *action.Configuration, op *eng.Op, x OpExt) error {
 		a.ClientOnly, a.TakeOwnership = f.ClientOnly, f.TakeOwnership
 		a.Timeout, a.WaitStrategy = time.Second, kube.HookOnlyStrategy // the CLI default of --wait
 		a.Force, a.SkipSchemaValidation, a.SubNotes, a.EnableDNS, a.DisableOpenAPIValidation = x.Force, x.SkipSchema, x.SubNotes, x.EnableDNS, x.NoValidate
-		a.SkipCRDs, a.Labels, a.Description = x.SkipCRDs, labels, x.Description
+		a.SkipCRDs, a.Labels, a.Description, a.CreateNamespace = x.SkipCRDs, labels, x.Description, x.CreateNamespace
 		_, err = a.Run(ch, vals)
 	case "upgrade":
 		a := action.NewUpgrade(cfg)
@@ -470,6 +519,59 @@ func runOp(cfg *action.Configuration, op *eng.Op, x OpExt) error {
 	return err
 }
 
+const crdDoc = `apiVersion: apiextensions.k8s.io/v1
+kind: CustomResourceDefinition
+metadata:
+  name: widgets.c09.example.com
+spec:
+  group: c09.example.com
+  names:
+    kind: Widget
+    plural: widgets
+  scope: Namespaced
+  versions:
+  - name: v1
+    served: true
+    storage: true
+`
+
+// crdFactory: the kubectl test factory of sim.Client() whose REST mapper also knows the kind
+// CustomResourceDefinition (as harness/cmd/hx/c06_run.go does), so that kube.Client.Build of a
+// crds/ file succeeds and the create request reaches the simulated server.
+type crdFactory struct{ *cmdtesting.TestFactory }
+
+func (f *crdFactory) NewBuilder() *resource.Builder {
+	return resource.NewFakeBuilder(
+		func(schema.GroupVersion) (resource.RESTClient, error) { return f.UnstructuredClient, nil },
+		func() (meta.RESTMapper, error) {
+			base, err := f.TestFactory.ToRESTMapper()
+			if err != nil {
+				return nil, err
+			}
+			crd := meta.NewDefaultRESTMapper(nil)
+			crd.Add(schema.GroupVersionKind{Group: "apiextensions.k8s.io", Version: "v1", Kind: "CustomResourceDefinition"}, meta.RESTScopeRoot)
+			return meta.FirstHitRESTMapper{MultiRESTMapper: meta.MultiRESTMapper{base, crd}}, nil
+		},
+		func() (restmapper.CategoryExpander, error) { return resource.FakeCategoryExpander, nil },
+	)
+}
+
+// simGetter: the RESTClientGetter of a configuration whose chart ships CRDs — installCRDs invalidates the
+// discovery cache and resets the REST mapper through it (a configuration without one panics there)
+type simGetter struct {
+	tf *cmdtesting.TestFactory
+	dc discovery.CachedDiscoveryInterface
+}
+
+func (g *simGetter) ToRESTConfig() (*rest.Config, error) { return g.tf.ToRESTConfig() }
+func (g *simGetter) ToDiscoveryClient() (discovery.CachedDiscoveryInterface, error) {
+	return g.dc, nil
+}
+func (g *simGetter) ToRESTMapper() (meta.RESTMapper, error) { return g.tf.ToRESTMapper() }
+func (g *simGetter) ToRawKubeConfigLoader() clientcmd.ClientConfig {
+	return g.tf.ToRawKubeConfigLoader()
+}
+
 const stepTimeout = 20 * time.Second
 
 // Run replays the case.
@@ -478,6 +580,13 @@ func Run(c Case) (obs Obs) {
 		obs.Probe = MemoryLockProbe()
 	}
 	r := eng.NewRunner(c.Backend)
+	aux := false // some operation ships CRDs or creates the namespace
+	for i := range c.Ops {
+		if x := c.ExtOf(i); x.CRDs || x.CreateNamespace {
+			aux = true
+		}
+	}
+	r.Srv.CRDs = aux
 	obs.Pre = r.Run(eng.History{Backend: c.Backend, Init: c.Init, Steps: c.Pre})
 	r.Srv.TakeMuts()
 	// at most one one-shot cluster fault for the concurrent phase: the first operation that
@@ -532,13 +641,21 @@ func Run(c Case) (obs Obs) {
 			o.obs.Rendered, o.obs.RHooks = rm, rh
 		}
 		kc := r.Srv.Client()
+		var getter genericclioptions.RESTClientGetter
 		if tf, ok := kc.Factory.(*cmdtesting.TestFactory); ok {
 			cleanups = append(cleanups, tf.Cleanup)
+			if c.ExtOf(i).CRDs {
+				kc.Factory = &crdFactory{tf}
+				getter = &simGetter{tf: tf, dc: cmdtesting.NewFakeCachedDiscoveryClient()}
+			}
 		}
 		cfg := &action.Configuration{
 			KubeClient:   &gclient{Client: kc, o: o},
 			Releases:     storage.Init(&gdrv{inner: r.Inner, o: o, copy: c.Backend == "memory"}),
 			Capabilities: chartutil.DefaultCapabilities.Copy(),
+		}
+		if getter != nil {
+			cfg.RESTClientGetter = getter
 		}
 		go func() {
 			var err error
@@ -594,6 +711,13 @@ func Run(c Case) (obs Obs) {
 	}
 	obs.Ledger = ledger(r.Inner)
 	obs.Objs = r.Srv.Snapshot()
+	if aux { // not release resources, not in the model: compared through PreMuts only
+		for k := range obs.Objs {
+			if strings.HasPrefix(k, "CustomResourceDefinition/") || strings.HasPrefix(k, "Namespace/") {
+				delete(obs.Objs, k)
+			}
+		}
+	}
 	return
 }
 
